@@ -36,6 +36,8 @@ THEOREMS = [
     "Nix.C17.C17_close_durable",
     "Nix.C17.C17_exit_durable",
     "Nix.C17.C17_history_durable",
+    "Nix.C17.C17_every_later_view",
+    "Nix.C17.C17_flush_idempotent",
     "Nix.C17.C17_chain_durable",
     "Nix.C17.C17_chain_reopen",
     "Nix.C17.C17_unflushed_can_lose",
@@ -60,6 +62,17 @@ TRUSTED_EXTRA = [
     "harness/lib/walk.py (canonical walk through the public API) and harness/props/c17_child.py (history "
     "generator, flush-point recorder, SIGKILL)",
 ]
+
+# (F) anchor fingerprints of the pinned tree — budget steering only (DESIGN 2.3 F): an edited anchor raises
+# the quick tier's kill budget, it is neither an alarm nor a tie
+ANCHOR_FP = {"__init__": "9566de7fd0a40144", "__enter__": "b5f2af836ab23acf", "__exit__": "955af8e558e944d6",
+             "flush": "09d35fdc75d91db5", "close": "f1030127f1659001"}
+
+
+def anchors_changed():
+    cur = core.func_fingerprint("nixio/file.py", list(ANCHOR_FP))
+    return sorted(k for k in ANCHOR_FP if cur.get(k) != ANCHOR_FP[k])
+
 
 ENDS = ["flush", "flush", "flush", "close", "close", "exit", "exit_exc", "flush_flush"]
 PY = sys.executable or "/venv/bin/python"
@@ -483,7 +496,8 @@ def correspondence(ctx):
     corpus = [c for c in core.load_corpus(PROP)]
     chains = [c for c in corpus if c.get("kind") == "chain"]
     sessions = [c for c in corpus if c.get("kind") == "session"]
-    target_kills = ctx.budget(20, 170)
+    changed = anchors_changed()
+    target_kills = ctx.budget(60 if changed else 20, 170)
     kills = sum(len(c["gens"]) for c in chains)
     while kills < target_kills:
         c = gen_chain(rng, quick)
@@ -546,6 +560,7 @@ def correspondence(ctx):
         if k < 3:
             samples.append({"case": s, "model": mod})
     dist["walks_not_stable_in_process"] = nonstable
+    dist["anchors_changed"] = changed
     ctx.c17_recs = list(zip(chains, allrecs))
     return {"evaluations": n_kills + len(sessions), "distinct_nontrivial": len(seen),
             "rule": "kill chains: %d writer processes in %d chains (each: seeded history over all entity kinds, "
